@@ -462,18 +462,29 @@ pub fn encode_input(sem: &Sem, operand: Ty, x: u64, ptr_sext: bool) -> Option<u6
     }
 }
 
-/// Can results of type `result` be judged for this semantics?  (`None` = yes)
-pub fn result_type_problem(sem: &Sem, result: Ty, declared: Option<Ty>, lang_allows_bool_to_int: bool) -> Option<String> {
+#[derive(Clone, Debug, PartialEq)]
+pub enum TypeCheck {
+    Ok,
+    /// the expression's type is not the declared one and does not convert to it
+    /// implicitly (the generated code would not compile as is): values are still
+    /// judged; a value mismatch is a violation, agreement is inconclusive
+    Soft(String),
+    /// results of this type cannot be judged at all
+    Hard(String),
+}
+
+/// Can results of type `result` be judged for this semantics?
+pub fn result_type_problem(sem: &Sem, result: Ty, declared: Option<Ty>, lang_allows_bool_to_int: bool) -> TypeCheck {
     match sem {
         Sem::Lower(s) => {
             let cb = s.core_bits();
             match result {
-                Ty::Int { bits, .. } if bits <= cb && !s.is_float() => None,
-                Ty::Bool if lang_allows_bool_to_int && !s.is_float() => None,
-                Ty::Char if cb == 32 && !s.is_float() => None,
-                Ty::F32 if *s == Scalar::F32 => None,
-                Ty::F64 if *s == Scalar::F64 => None,
-                _ => Some(format!("result type {} cannot be passed as core {}", result.name(), if s.is_float() { "float" } else { "integer" })),
+                Ty::Int { bits, .. } if bits <= cb && !s.is_float() => TypeCheck::Ok,
+                Ty::Bool if lang_allows_bool_to_int && !s.is_float() => TypeCheck::Ok,
+                Ty::Char if cb == 32 && !s.is_float() => TypeCheck::Ok,
+                Ty::F32 if *s == Scalar::F32 => TypeCheck::Ok,
+                Ty::F64 if *s == Scalar::F64 => TypeCheck::Ok,
+                _ => TypeCheck::Hard(format!("result type {} cannot be passed as core {}", result.name(), if s.is_float() { "float" } else { "integer" })),
             }
         }
         Sem::Lift(s) => {
@@ -486,7 +497,7 @@ pub fn result_type_problem(sem: &Sem, result: Ty, declared: Option<Ty>, lang_all
                 _ => false,
             };
             if !ok {
-                return Some(format!("result type {} cannot hold a {}", result.name(), s.wit()));
+                return TypeCheck::Hard(format!("result type {} cannot hold a {}", result.name(), s.wit()));
             }
             if let Some(d) = declared {
                 if d != result {
@@ -497,11 +508,11 @@ pub fn result_type_problem(sem: &Sem, result: Ty, declared: Option<Ty>, lang_all
                         _ => false,
                     };
                     if !fine {
-                        return Some(format!("result type {} is not implicitly convertible to the declared type {}", result.name(), d.name()));
+                        return TypeCheck::Soft(format!("the expression has type {} which does not convert implicitly to the declared type {}", result.name(), d.name()));
                     }
                 }
             }
-            None
+            TypeCheck::Ok
         }
         Sem::Cast { steps, .. } => {
             let to = steps.last().unwrap().1;
@@ -513,9 +524,9 @@ pub fn result_type_problem(sem: &Sem, result: Ty, declared: Option<Ty>, lang_all
                 _ => false,
             };
             if ok {
-                None
+                TypeCheck::Ok
             } else {
-                Some(format!("result type {} cannot hold a {}", result.name(), to.name()))
+                TypeCheck::Hard(format!("result type {} cannot hold a {}", result.name(), to.name()))
             }
         }
     }
